@@ -39,6 +39,15 @@ DESC = {
     "C04_r2a": ("C04", "greedy compute_one_with_stack prints DUPn from a stale position: DUP17/DUP18 with error == 0", "a value at depth >= 16 fetched twice in a row as its last two uses with the SWAP route blocked (DUP16 DUP1 ADD SWAP16 POP)"),
     "C16_r2a": ("C16", "compute_vars counts operand positions instead of instructions reading an initial variable: max_sk_sz one too small", "an initial element that is both operands of one instruction and stays in the final stack, tight estimate (DUP1 DUP1 MUL SWAP1)"),
     "C14_r2a": ("C14", "rebuild_optimized_asm_block re-emits the shared split instruction only if the replacement does not already end with one that prints like it", "replacement ending in the split opcode, or an empty replacement between two equal split instructions"),
+    "C06_r2a": ("C06", "generate_dependency_graph_minimum merges the happens-before sets the wrong way round: a later ordering tuple is dropped as implied", "-memory-encoding l_vars and x = load(p); store(a,b); store(c,x) with the load address produced by an instruction"),
+    "C07_r2a": ("C07", "update_with_tree_level gives the third operand of a non-commutative instruction the bound i-3 instead of i-2", "ADDMOD/MULMOD whose third operand is computed two positions earlier, program tight against init_progr_len"),
+    "C07_r2b": ("C07", "unique_ui: every operand-less non-PUSH instruction is treated as exactly-once", "gas criterion and a 2-gas nullary opcode (CALLER, CALLVALUE) whose value is needed twice"),
+    "C08_r2a": ("C08", "improves_criterion: on a tie the secondary savings are compared lexicographically instead of requiring none to be negative", "-length, a candidate of equal length that saves gas and costs more bytes"),
+    "C17_r2a": ("C17", "asm_bytecode.is_push0 accepts every name starting with PUSH", "PUSH0 enabled and a pseudo-push whose operand is spelled 0 (plain-text input, ids2asm output)"),
+    "C18_r2a": ("C18", "ExpressionReference.__eq__ compares arguments by membership instead of position", "two applications of one function of arity >= 2 with permuted or repeated arguments"),
+    "C09_r2a": ("C09", "rebuild_optimized_asm_block restores the library name into every pseudo-push whose operand equals a library index of the block", "an optimized block with PUSHLIB and another pseudo-push with operand 0/1"),
+    "C11_r2a": ("C11", "AsmBlock.instructions_final_bytecode scans only the last instruction, so the replay check no longer sees a block-ending opcode in the middle", "a log entry with a raw STOP/RETURN/JUMP name among otherwise correct ids"),
+    "C12_r2a": ("C12", "sstore_seq is no longer reset in init_globals and generate_storage_info consumes it by alias", "an earlier block whose analysis raised after an SSTORE/KECCAK256 expression was appended"),
     "C16_mB": ("C16", "update_with_tree_level applies the two-positions-earlier rule to commutative instructions too: min_length one too large", "second operand of a commutative operation is the deepest dependency chain"),
 }
 
@@ -52,6 +61,15 @@ def main():
             except ValueError:
                 continue
             results.setdefault(d["name"], []).append(d)
+    # evaluations of an older revision of the checks (tools/eval_mutant_old.sh): what was caught before strengthening
+    older = {}
+    for f in sorted(glob.glob(os.path.join(HERE, "seeded", "_eval", "old_eval_*.log"))):
+        for line in open(f):
+            try:
+                d = json.loads(line)
+            except ValueError:
+                continue
+            older[d["name"]] = d
     rows = []
     for name, (prop, change, needs) in DESC.items():
         d = os.path.join(HERE, "seeded", name)
@@ -60,12 +78,20 @@ def main():
         evals = results.get(name, [])
         first = evals[0] if evals else None
         last = evals[-1] if evals else None
+        if name in older and first is not None:
+            # the recorded first run already used strengthened checks: the older revision is the true "before"
+            o = dict(first)
+            o["checks"] = older[name]["checks"]
+            o["verif_revision"] = older[name]["verif_revision"]
+            if last is first:
+                last = dict(first)
+            first = o
         meta = {"property": prop, "change": change, "needs_to_manifest": needs,
                 "confirmed": {"demo_exit_unchanged_tree": first and first["demo_clean_exit"], "demo_exit_with_patch": first and first["demo_mutant_exit"],
                               "stable_tests_with_patch": next((e["stable_tests"] for e in evals if e["stable_tests"] != "skipped"), None)},
                 "ran": "tools/eval_mutant.sh %s <dir> <checks>: scratch worktree of /repo HEAD + patch, demo with/without patch, 46 stable tests with patch, "
                        "then `GASOL_REPO=<scratch> ./check <id> --tier quick`" % name,
-                "first_evaluation": first and first["checks"], "after_strengthening": (last["checks"] if last is not first else None)}
+                "first_evaluation": first and first["checks"], "first_evaluation_verif_revision": first and first.get("verif_revision", "as committed at the time"), "after_strengthening": (last["checks"] if last is not first else None)}
         with open(os.path.join(d, "meta.json"), "w") as f:
             json.dump(meta, f, indent=1)
         def verdict(e):
